@@ -295,3 +295,56 @@ func (e *Eng) doneReportsTerminator() {
 	}
 	e.add(name, funcKey(fn), props, len(bad) == 0 && n > 0, detail)
 }
+
+// ringOwnSlot: stage 1 touches the ring of index buffers only through the slot it has just claimed: every access to
+// pj.buffers in findStructuralIndices addresses element (claimed counter % indexSlots), the counter being the value
+// the atomic increment of buffersOffset returned. Any other element may be in the consumer's hands (the channel holds
+// up to indexSlots-2 claimed slots, the consumer one more): writing there changes indexes before they are consumed,
+// under a schedule in which the producer is a full lap ahead.
+func (e *Eng) ringOwnSlot() {
+	props := []string{"C07"}
+	name := "stage1#ring-accessed-only-at-claimed-slot"
+	fn := e.fn("(*internalParsedJson).findStructuralIndices")
+	if fn == nil {
+		return
+	}
+	var bad []string
+	n := 0
+	for _, b := range fn.Blocks {
+		for _, in := range b.Instrs {
+			fa, ok := in.(*ssa.FieldAddr)
+			if !ok || fieldNameOf(&ssa.UnOp{Op: token.MUL, X: fa}) != "buffers" {
+				continue
+			}
+			for _, r := range *fa.Referrers() {
+				ia, ok := r.(*ssa.IndexAddr)
+				if !ok {
+					if _, dbg := r.(*ssa.DebugRef); !dbg {
+						bad = append(bad, e.pos(r)+": the ring is used other than by addressing one slot")
+					}
+					continue
+				}
+				n++
+				claimed := false
+				if bo, ok := ia.Index.(*ssa.BinOp); ok && bo.Op == token.REM {
+					if c, ok := bo.X.(*ssa.Call); ok && calleeName(&c.Call) == "atomic.AddUint64" && len(c.Call.Args) > 0 {
+						if cfa, ok := c.Call.Args[0].(*ssa.FieldAddr); ok && fieldNameOf(&ssa.UnOp{Op: token.MUL, X: cfa}) == "buffersOffset" {
+							claimed = true
+						}
+					}
+				}
+				if !claimed {
+					bad = append(bad, e.pos(ia)+": a ring slot other than the one just claimed (buffersOffset counter % slots) is addressed")
+				}
+			}
+		}
+	}
+	if n == 0 {
+		bad = append(bad, "no access to the ring found (the obligation would be vacuous)")
+	}
+	detail := fmt.Sprintf("%d ring accesses, each at the slot claimed by the atomic counter", n)
+	if len(bad) > 0 {
+		detail = strings.Join(bad, "; ")
+	}
+	e.add(name, funcKey(fn), props, len(bad) == 0, detail)
+}
